@@ -711,7 +711,11 @@ func mapOrderCases(thorough bool, f func(sc.Case, []string)) {
 	// the same with names that a comparator which is not a total order would tie (letter case only,
 	// one a prefix of the other, equal lengths, punctuation only, order that flips when case is folded):
 	// wherever the library puts type names in a "fixed" order, ties fall back to the map order
-	for _, pr := range [][2]string{{"@Pet", "@pet"}, {"@a", "@ab"}, {"@ab", "@ba"}, {"@a-1", "@a_1"}, {"@B", "@a"}} {
+	tiePairs := [][2]string{{"@Pet", "@pet"}, {"@a", "@ab"}, {"@B", "@a"}}
+	if thorough {
+		tiePairs = append(tiePairs, [2]string{"@ab", "@ba"}, [2]string{"@a-1", "@a_1"})
+	}
+	for _, pr := range tiePairs {
 		f(sc.Case{Root: gen.Obj(gen.P("p", gen.Ref(pr[0])), gen.P("q", gen.Ref(pr[1]))), Types: []sc.TypeDecl{
 			{Name: pr[0], Body: gen.Obj(gen.P("x", gen.Int("1").With(gen.R("min", "5"))))},
 			{Name: pr[1], Body: gen.Str(`"abc"`).With(gen.R("maxLength", "1"))}}}, []string{`{}`})
